@@ -135,6 +135,8 @@ def run(ctx):
     ctx.tlc_mc("svm/SvrSmoMC.tla", "svm/SvrSmoMC_%s.cfg" % ("thorough" if ctx.thorough else "anysign"),
                must_cover=("Iterate",))
     # ---- spec -> impl: inject every enumerated schedule -------------------------------------
+    # TLC prints in a worker-dependent order; sort so that a seed determines the run completely
+    sched_lines.sort(key=lambda l: (lambda d: (d["n"], d["epochs"], d["orders"]))(json.loads(l)))
     sfile = ctx.path("c10-schedules.ndjson")
     with open(sfile, "w") as f:
         for l in sched_lines:
@@ -207,6 +209,9 @@ def run(ctx):
 
 
 def replay(ctx, path):
+    """Re-validate the recorded events, then re-execute them from their recorded inputs against the
+    current tree and validate again.  Exit 1 iff the current tree still fails (for fits that were
+    left to the unseedable RNG the recorded outcome is all there is, so it decides)."""
     d = json.load(open(path))
     evs = d["events"]
     f = ctx.path("replay-recorded.ndjson")
@@ -214,9 +219,11 @@ def replay(ctx, path):
     rc = 0
     v, bads = ctx.tlc_trace("svm/SvmTrace.tla", "svm/SvmTrace.cfg", f, tag="replay-recorded")
     for b in bads:
-        print("REPLAY-BAD recorded", b)
-        rc = 1
-    # re-execute from the recorded inputs (possible whenever the schedule was injected)
+        e = evs[b[0] - 1]
+        unrepeatable = e.get("ev") == "SvcFit" and not e.get("in", {}).get("sched")
+        print("REPLAY-BAD recorded%s" % (" (unseeded fit: cannot be re-executed)" if unrepeatable else ""), b)
+        if unrepeatable:
+            rc = 1
     ctx.build()
     g = ctx.path("replay-rerun.ndjson")
     ctx.harness("rerun", f, g)
@@ -224,4 +231,6 @@ def replay(ctx, path):
     for b in bads:
         print("REPLAY-BAD re-executed", b)
         rc = 1
+    if rc == 0:
+        print("REPLAY-OK: the current tree satisfies every clause on the recorded inputs")
     return rc
